@@ -45,6 +45,9 @@ func (s *IndexStorage) SetIndex(idx *index.Index) (err error) {
 		if statErr == nil {
 			cp := copyIndex(idx)
 			cp.ModTime = fi.ModTime()
+			// The encoder writes no extensions: the file just written
+			// decodes to an index without them, and so must the cached copy.
+			cp.Cache, cp.ResolveUndo, cp.EndOfIndexEntry = nil, nil, nil
 			s.cache.Set(cp, fi.ModTime(), fi.Size())
 		} else {
 			s.cache.Clear()
